@@ -700,11 +700,8 @@ func (p *parser) parseRelationalExpression() ast.Expression {
 	next := p.parseShiftExpression
 	left := next()
 
+	// the operands inherit the no-in restriction of a for initialiser (11.8: ...NoIn)
 	allowIn := p.scope.allowIn
-	p.scope.allowIn = true
-	defer func() {
-		p.scope.allowIn = allowIn
-	}()
 
 	switch p.token {
 	case token.LESS, token.LESS_OR_EQUAL, token.GREATER, token.GREATER_OR_EQUAL:
